@@ -824,8 +824,11 @@ def closure_bit(closure):
 
 @obligation(["C06", "C11", "C04"], "MetadataPdu.pack/list", bounded=OPT_BOUND,
             verifies=[MD + "MetadataPdu.__init__", MD + "MetadataPdu.pack", MD + "MetadataPdu._calculate_directive_field_len"])
-def metadata_pack_list(mode: EnumOf(TransmissionMode), crc: EnumOf(CrcFlag), large: EnumOf(LargeFileFlag), we: W2, ws: W2B, src: Int, seq: Int,
+def metadata_pack_list(mode: EnumOf(TransmissionMode), crc: EnumOf(CrcFlag), large: EnumOf(LargeFileFlag), src: Int, seq: Int,
                        dst: Int, closure: Bool, cksum: EnumOf(ChecksumType), size: Int, sname: NAME, dname: NAME, items: OPTIONS):
+    """options of any type and value (one width pair, all pairs in MetadataPdu.pack/scalar)"""
+    we = 8
+    ws = 1
     requires(ids_in_range(we, ws, src, seq, dst))
     requires(fss_fits(large, size))
     conf = mk_conf(we, ws, src, seq, dst, mode, crc, large, Direction.TOWARDS_RECEIVER, SegmentationControl.NO_RECORD_BOUNDARIES_PRESERVATION)
@@ -895,3 +898,86 @@ def metadata_roundtrip_names(mode: EnumOf(TransmissionMode), crc: EnumOf(CrcFlag
     pdu = MetadataPdu(conf, MetadataParams(closure, cksum, size, sname, dname), options)
     raw = pdu.pack()
     md_rt_clauses(pdu, raw, suffix, conf, closure, cksum, size, sname, dname, [])
+
+
+@obligation(["C06", "C09", "C04"], "MetadataPdu/roundtrip-list", bounded=OPT_BOUND, verifies=[MD + "MetadataPdu.unpack", MD + "MetadataPdu._parse_options",
+                                                                                             MD + "MetadataPdu.__eq__"],
+            max_paths=4000, branch_timeout_ms=300)
+def metadata_roundtrip_list(mode: EnumOf(TransmissionMode), crc: EnumOf(CrcFlag), large: EnumOf(LargeFileFlag), src: Int, seq: Int, dst: Int,
+                            closure: Bool, cksum: EnumOf(ChecksumType), size: Int, sname: NAME, dname: NAME, items: OPTIONS, suffix: Bytes):
+    """options of any type and value (one width pair; a bytes buffer - the list-free harnesses decode bytearrays)"""
+    we = 2
+    ws = 2
+    requires(ids_in_range(we, ws, src, seq, dst))
+    requires(fss_fits(large, size))
+    conf = mk_conf(we, ws, src, seq, dst, mode, crc, large, Direction.TOWARDS_RECEIVER, SegmentationControl.NO_RECORD_BOUNDARIES_PRESERVATION)
+    pdu = MetadataPdu(conf, MetadataParams(closure, cksum, size, sname, dname), mk_options(items))
+    raw = bytes(pdu.pack())
+    md_rt_clauses(pdu, raw, suffix, conf, closure, cksum, size, sname, dname, items)
+
+
+def md_arbitrary_clauses(data):
+    o = outcome(MetadataPdu.unpack, data)
+    ensures("raises-only", o.ok or o.raised(ValueError, InvalidCrc, UnsupportedCfdpVersion))
+    if o.ok:
+        g = o.value
+        n = hdr_len_of(data) + data[1] * 256 + data[2]
+        hl = hdr_len_of(data)
+        f = 4 + 4 * bits(data[0], 0, 0)
+        ensures("inside-buffer", n <= len(data))
+        ensures("crc-gate", implies(bits(data[0], 1, 1) == 1, crc16(data[0:n]) == 0))
+        ensures("params-inside-pdu", hl + 2 + f + 2 + 2 * bits(data[0], 1, 1) <= n)
+        ensures("params", both(g.closure_requested == (bits(data[hl + 1], 6, 6) == 1), g.checksum_type == bits(data[hl + 1], 3, 0),
+                               g.file_size == from_be(data[hl + 2:hl + 2 + f])))
+        o2 = outcome(MetadataPdu.unpack, data[0:n])
+        ensures("prefix-only", both(o2.ok, same_state(g, o2.value)))
+
+
+def metadata_unpack_arbitrary_short(data):
+    """ANY octet string whose declared data-field length is at most that of the smallest Metadata PDU (two empty names, no options):
+    every header, every buffer length"""
+    if len(data) >= 3:
+        requires(data[1] * 256 + data[2] <= 2 + (4 + 4 * bits(data[0], 0, 0)) + 2 + 2 * bits(data[0], 1, 1))
+    md_arbitrary_clauses(data)
+
+
+MD_ARB = dict(bounded="declared data field not longer than the smallest Metadata PDU", verifies=[MD + "MetadataPdu.unpack"], max_paths=4000,
+              branch_timeout_ms=300)
+
+
+@obligation(["C06", "C09", "C10", "C04"], "MetadataPdu.unpack/arbitrary-short-idw1", **MD_ARB)
+def metadata_unpack_arbitrary_1(data: Bytes):
+    id_width_code_in(data, 0, 2)
+    metadata_unpack_arbitrary_short(data)
+
+
+@obligation(["C06", "C09", "C10", "C04"], "MetadataPdu.unpack/arbitrary-short-idw2", **MD_ARB)
+def metadata_unpack_arbitrary_2(data: Bytes):
+    id_width_code_in(data, 1, 4)
+    metadata_unpack_arbitrary_short(data)
+
+
+@obligation(["C06", "C09", "C10", "C04"], "MetadataPdu.unpack/arbitrary-short-idw4", **MD_ARB)
+def metadata_unpack_arbitrary_4(data: Bytes):
+    id_width_code_in(data, 3, 5)
+    metadata_unpack_arbitrary_short(data)
+
+
+@obligation(["C06", "C09", "C10", "C04"], "MetadataPdu.unpack/arbitrary-short-idw8", **MD_ARB)
+def metadata_unpack_arbitrary_8(data: Bytes):
+    id_width_code_in(data, 7, 6)
+    metadata_unpack_arbitrary_short(data)
+
+
+@obligation(["C06", "C09", "C10", "C04"], "MetadataPdu.unpack/arbitrary-params",
+            bounded="valid fixed header with 1-octet entity IDs and 2-octet sequence number; declared area behind the file size <= 6 octets",
+            verifies=[MD + "MetadataPdu.unpack", MD + "MetadataPdu._parse_options"], max_paths=4000, branch_timeout_ms=300)
+def metadata_unpack_arbitrary_params(direction: EnumOf(Direction), mode: EnumOf(TransmissionMode), crc: EnumOf(CrcFlag),
+                                     large: EnumOf(LargeFileFlag), src: Int, seq: Int, dst: Int, area: IntRange(0, 6), rest: Bytes):
+    """a well-formed fixed header (any flags; arbitrary headers: C05 and arbitrary-short-*) that declares 0..6 octets behind the
+    file-size field (file name LVs and option TLVs), followed by ANY octets"""
+    we = 1
+    ws = 2
+    requires(ids_in_range(we, ws, src, seq, dst))
+    data = pdu_header_octets(0, direction, mode, crc, large, 2 + fss_len(large) + area + crc_len(crc), 0, 0, we, ws, src, seq, dst) + rest
+    md_arbitrary_clauses(data)
